@@ -62,6 +62,16 @@ def setTsr (R : Regs) (o : Option Route) (ps : Binds) : Regs :=
 
 def parentLeafRoute (parent : Option Node) : Option Route := parent.bind (·.route)
 
+/-- `if !lazy { *c.params = append(*c.params, …) }`: a lazy lookup (Reverse, Iter.Reverse, the Allow-header loops) records nothing -/
+def rec (lz : Bool) (ps x : Binds) : Binds := if lz then ps else ps ++ x
+/-- `if !lazy { paramCnt++ }` -/
+def inc (lz : Bool) (n : Nat) : Nat := if lz then n else n + 1
+
+@[simp] theorem rec_false (ps x : Binds) : rec false ps x = ps ++ x := rfl
+@[simp] theorem rec_true (ps x : Binds) : rec true ps x = ps := rfl
+@[simp] theorem inc_false (n : Nat) : inc false n = n + 1 := rfl
+@[simp] theorem inc_true (n : Nat) : inc true n = n := rfl
+
 @[simp] theorem setTsr_skipNds (R : Regs) (o : Option Route) (ps : Binds) : (setTsr R o ps).skipNds = R.skipNds := by
   unfold setTsr; split <;> rfl
 @[simp] theorem setTsr_params (R : Regs) (o : Option Route) (ps : Binds) : (setTsr R o ps).params = R.params := by
@@ -214,32 +224,32 @@ theorem drop_cons_lt {p : Bytes} {cm : Nat} {b : UInt8} {rest : Bytes} (hp : p.d
 
 mutual
 /-- the inner loop: match the rest `k` of `cur`'s key (`pre` already consumed) against `p[cm:]` -/
-def keyLoop (p : Bytes) (cur : Node) (pre k : List Tok) (parent : Option Node) (cm paramCnt : Nat) (R : Regs) : Result :=
+def keyLoop (lz : Bool) (p : Bytes) (cur : Node) (pre k : List Tok) (parent : Option Node) (cm paramCnt : Nat) (R : Regs) : Result :=
   match hp : p.drop cm with
-  | [] => afterLoop p cur pre k parent cm R                      -- `charsMatched < len(path)` is false
+  | [] => afterLoop lz p cur pre k parent cm R                      -- `charsMatched < len(path)` is false
   | b :: rest =>
     match k with
-    | [] => nodeEnd p cur pre parent cm paramCnt b rest R         -- `i >= len(current.key)`: break, then select a child
+    | [] => nodeEnd lz p cur pre parent cm paramCnt b rest R         -- `i >= len(current.key)`: break, then select a child
     | .lit c :: k' =>
-      if c = b ∧ b ≠ LBR ∧ b ≠ STAR then keyLoop p cur (pre ++ [.lit c]) k' parent (cm + 1) paramCnt R
-      else afterLoop p cur pre (.lit c :: k') parent cm R         -- `break Walk`
+      if c = b ∧ b ≠ LBR ∧ b ≠ STAR then keyLoop lz p cur (pre ++ [.lit c]) k' parent (cm + 1) paramCnt R
+      else afterLoop lz p cur pre (.lit c :: k') parent cm R         -- `break Walk`
     | .param nm :: k' =>
       -- idx := strings.IndexByte(path[charsMatched:], '/')
-      if segEnd SLASH (b :: rest) = 0 then afterLoop p cur pre (.param nm :: k') parent cm R    -- segment is empty
+      if segEnd SLASH (b :: rest) = 0 then afterLoop lz p cur pre (.param nm :: k') parent cm R    -- segment is empty
       else
-        keyLoop p cur (pre ++ [.param nm]) k' parent (cm + segEnd SLASH (b :: rest)) (paramCnt + 1)
-          { R with params := R.params ++ [(nm, (b :: rest).take (segEnd SLASH (b :: rest)))] }
+        keyLoop lz p cur (pre ++ [.param nm]) k' parent (cm + segEnd SLASH (b :: rest)) (inc lz paramCnt)
+          { R with params := rec lz R.params [(nm, (b :: rest).take (segEnd SLASH (b :: rest)))] }
     | .catchAll nm :: k' =>
       match k', cur.children with
       | [], [] =>
         -- ending catch-all without child: direct match
-        ret cur.route (R.params ++ [(nm, b :: rest)])
+        ret cur.route (rec lz R.params [(nm, b :: rest)])
       | [], c :: _ =>
         -- `inode = current.children[0]`
-        infixLoop p cur (pre ++ [.catchAll nm]) [] nm parent c cm cm R
+        infixLoop lz p cur (pre ++ [.catchAll nm]) [] nm parent c cm cm R
       | t :: k'', _ =>
         -- `inode = current.inode`: this node with the key that follows the catch-all
-        infixLoop p cur (pre ++ [.catchAll nm]) (t :: k'') nm parent (.mk (t :: k'') cur.route cur.children) cm cm R
+        infixLoop lz p cur (pre ++ [.catchAll nm]) (t :: k'') nm parent (.mk (t :: k'') cur.route cur.children) cm cm R
 termination_by (p.length, posW cur k + stackW R.skipNds, 2)
 decreasing_by
   all_goals simp_wf
@@ -248,15 +258,15 @@ decreasing_by
   all_goals (first | omega | decide)
 
 /-- bottom of the catch-all loop body: no further '/' (or an empty segment): the catch-all takes the whole rest -/
-def infixTail (p : Bytes) (cur : Node) (pre k' : List Tok) (nm : Bytes) (parent : Option Node)
+def infixTail (lz : Bool) (p : Bytes) (cur : Node) (pre k' : List Tok) (nm : Bytes) (parent : Option Node)
     (startPath cm : Nat) (R : Regs) : Result :=
-  if k' = [] then ret cur.route (R.params ++ [(nm, p.drop startPath)])        -- `end == -1`: ending catch-all
+  if k' = [] then ret cur.route (rec lz R.params [(nm, p.drop startPath)])    -- `end == -1`: ending catch-all
   else if (p.drop startPath).head? = some SLASH then
     -- an infix catch-all never captures an empty leading segment: `break Walk` where we are
-    afterLoop p cur pre k' parent cm { R with params := R.params ++ [(nm, p.drop startPath)] }
+    afterLoop lz p cur pre k' parent cm { R with params := rec lz R.params [(nm, p.drop startPath)] }
   else
     -- `charsMatched += len(path[charsMatched:])`, `break Walk`
-    afterLoop p cur pre k' parent p.length { R with params := R.params ++ [(nm, p.drop startPath)] }
+    afterLoop lz p cur pre k' parent p.length { R with params := rec lz R.params [(nm, p.drop startPath)] }
 termination_by (p.length, posW cur k' + stackW R.skipNds, 1)
 decreasing_by
   all_goals simp_wf
@@ -264,22 +274,22 @@ decreasing_by
   all_goals omega
 
 /-- the catch-all `nm` started capturing at `startPath`; try a sub-lookup on `inode` at every following '/' -/
-def infixLoop (p : Bytes) (cur : Node) (pre k' : List Tok) (nm : Bytes) (parent : Option Node) (inode : Node)
+def infixLoop (lz : Bool) (p : Bytes) (cur : Node) (pre k' : List Tok) (nm : Bytes) (parent : Option Node) (inode : Node)
     (startPath cm : Nat) (R : Regs) : Result :=
   match hp : p.drop cm with
-  | [] => infixTail p cur pre k' nm parent startPath cm R
+  | [] => infixTail lz p cur pre k' nm parent startPath cm R
   | b :: rest =>
     if 0 < segEnd SLASH (b :: rest) ∧ segEnd SLASH (b :: rest) < (b :: rest).length then
       -- idx > 0: `charsMatched += idx`, sub-lookup on the rest (which starts with '/')
-      match keyLoop (p.drop (cm + segEnd SLASH (b :: rest))) inode [] inode.key none 0 0 {} with
-      | .none => infixLoop p cur pre k' nm parent inode startPath (cm + segEnd SLASH (b :: rest) + 1) R
+      match keyLoop false (p.drop (cm + segEnd SLASH (b :: rest))) inode [] inode.key none 0 0 {} with
+      | .none => infixLoop lz p cur pre k' nm parent inode startPath (cm + segEnd SLASH (b :: rest) + 1) R
       | .found r sps true =>
-        infixLoop p cur pre k' nm parent inode startPath (cm + segEnd SLASH (b :: rest) + 1)
-          (setTsr R (some r) (R.params ++ [(nm, (p.drop startPath).take (cm + segEnd SLASH (b :: rest) - startPath))] ++ sps))
+        infixLoop lz p cur pre k' nm parent inode startPath (cm + segEnd SLASH (b :: rest) + 1)
+          (setTsr R (some r) (rec lz (rec lz R.params [(nm, (p.drop startPath).take (cm + segEnd SLASH (b :: rest) - startPath))]) sps))
       | .found r sps false =>
-        .found r (R.params ++ [(nm, (p.drop startPath).take (cm + segEnd SLASH (b :: rest) - startPath))] ++ sps) false
+        .found r (rec lz (rec lz R.params [(nm, (p.drop startPath).take (cm + segEnd SLASH (b :: rest) - startPath))]) sps) false
       | .bad => .bad
-    else infixTail p cur pre k' nm parent startPath cm R
+    else infixTail lz p cur pre k' nm parent startPath cm R
 termination_by (p.length, posW cur k' + stackW R.skipNds, 2 + (p.length - cm))
 decreasing_by
   all_goals simp_wf
@@ -288,7 +298,7 @@ decreasing_by
   all_goals omega
 
 /-- the key of `cur` is used up and the path is not (`b :: rest = p[cm:]`): choose the next child -/
-def nodeEnd (p : Bytes) (cur : Node) (pre : List Tok) (parent : Option Node) (cm paramCnt : Nat) (b : UInt8) (rest : Bytes)
+def nodeEnd (lz : Bool) (p : Bytes) (cur : Node) (pre : List Tok) (parent : Option Node) (cm paramCnt : Nat) (b : UInt8) (rest : Bytes)
     (R : Regs) : Result :=
   -- remove the extra trailing slash: exact match on a leaf, detected before going deeper
   let R1 := earlyTsr cur cm b rest R
@@ -296,13 +306,13 @@ def nodeEnd (p : Bytes) (cur : Node) (pre : List Tok) (parent : Option Node) (cm
   | none =>
     match hpc : paramChild cur with
     | some pc =>
-      keyLoop p pc [] pc.key (some cur) cm paramCnt { R1 with skipNds := pushWild cur cm paramCnt R1.skipNds }
+      keyLoop lz p pc [] pc.key (some cur) cm paramCnt { R1 with skipNds := pushWild cur cm paramCnt R1.skipNds }
     | none =>
       match hwc : wildChild cur with
-      | some wc => keyLoop p wc [] wc.key (some cur) cm paramCnt R1
-      | none => afterLoop p cur pre [] parent cm R1              -- nothing more to evaluate: `break`
+      | some wc => keyLoop lz p wc [] wc.key (some cur) cm paramCnt R1
+      | none => afterLoop lz p cur pre [] parent cm R1              -- nothing more to evaluate: `break`
   | some sc =>
-    keyLoop p sc [] sc.key (some cur) cm paramCnt
+    keyLoop lz p sc [] sc.key (some cur) cm paramCnt
       { R1 with skipNds := pushParam cur cm paramCnt (pushWild cur cm paramCnt R1.skipNds) }
 termination_by (p.length, posW cur [] + stackW R.skipNds, 1)
 decreasing_by
@@ -330,9 +340,9 @@ decreasing_by
     omega
 
 /-- after the `Walk` loop: trailing-slash recommendations, exact match, then `Backtrack` -/
-def afterLoop (p : Bytes) (cur : Node) (pre k : List Tok) (parent : Option Node) (cm : Nat) (R : Regs) : Result :=
+def afterLoop (lz : Bool) (p : Bytes) (cur : Node) (pre k : List Tok) (parent : Option Node) (cm : Nat) (R : Regs) : Result :=
   if cur.isLeaf && (p.drop cm).isEmpty && k.isEmpty then ret cur.route R.params     -- exact match
-  else backtrack p (postTsr p cur pre k parent cm R)
+  else backtrack lz p (postTsr p cur pre k parent cm R)
 termination_by (p.length, posW cur k + stackW R.skipNds, 0)
 decreasing_by
   all_goals simp_wf
@@ -340,14 +350,14 @@ decreasing_by
   all_goals omega
 
 /-- `Backtrack:` pop the most recent skipped alternative, or return the trailing-slash candidate -/
-def backtrack (p : Bytes) (R : Regs) : Result :=
+def backtrack (lz : Bool) (p : Bytes) (R : Regs) : Result :=
   match hst : R.skipNds with
   | [] =>
     (match R.tsr with
      | some (r, ps) => .found r ps true
      | none => .none)
   | f :: st =>
-    keyLoop p f.child [] f.child.key (some f.n) f.pathIndex f.paramCnt
+    keyLoop lz p f.child [] f.child.key (some f.n) f.pathIndex f.paramCnt
       { R with skipNds := st, params := R.params.take f.paramCnt }
 termination_by (p.length, stackW R.skipNds, 3)
 decreasing_by
@@ -357,9 +367,9 @@ decreasing_by
   omega
 end
 
-/-- `lookupByPath(tree, target, path, c, false)` with `*c.params` holding `ps0` on entry -/
-def lookupByPath (target : Node) (path : Bytes) (ps0 : Binds) : Result :=
-  keyLoop path target [] target.key none 0 ps0.length { params := ps0 }
+/-- `lookupByPath(tree, target, path, c, lazy)` with `*c.params` holding `ps0` on entry (the Go callers pass an emptied buffer) -/
+def lookupByPath (target : Node) (path : Bytes) (ps0 : Binds) (lz : Bool := false) : Result :=
+  keyLoop lz path target [] target.key none 0 ps0.length { params := ps0 }
 
 /-- the linear search over `childKeys` of lookupByDomain (no exception for '*') -/
 def hostStaticChild (n : Node) (b : UInt8) : Option Node := n.children.find? (fun c => firstByte c.key == b)
@@ -369,21 +379,21 @@ theorem param_le (cur : Node) : (match paramChild cur with | some pc => nodeW pc
 
 mutual
 /-- lookupByDomain, inner loop: match the rest `k` of `cur`'s key against `host[cm:]` -/
-def hostKeyLoop (host path : Bytes) (cur : Node) (k : List Tok) (cm paramCnt : Nat) (R : Regs) : Result :=
+def hostKeyLoop (lz : Bool) (host path : Bytes) (cur : Node) (k : List Tok) (cm paramCnt : Nat) (R : Regs) : Result :=
   match host.drop cm with
-  | [] => hostAfter host path cur k cm R
+  | [] => hostAfter lz host path cur k cm R
   | b :: rest =>
     match k with
-    | [] => hostNodeEnd host path cur cm paramCnt b R
+    | [] => hostNodeEnd lz host path cur cm paramCnt b R
     | .lit c :: k' =>
-      if c = b ∧ b ≠ LBR then hostKeyLoop host path cur k' (cm + 1) paramCnt R
-      else hostAfter host path cur (.lit c :: k') cm R                                  -- `break Walk`
+      if c = b ∧ b ≠ LBR then hostKeyLoop lz host path cur k' (cm + 1) paramCnt R
+      else hostAfter lz host path cur (.lit c :: k') cm R                                  -- `break Walk`
     | .param nm :: k' =>
-      if segEnd DOT (b :: rest) = 0 then hostAfter host path cur (.param nm :: k') cm R   -- label part is empty
+      if segEnd DOT (b :: rest) = 0 then hostAfter lz host path cur (.param nm :: k') cm R   -- label part is empty
       else
-        hostKeyLoop host path cur k' (cm + segEnd DOT (b :: rest)) (paramCnt + 1)
-          { R with params := R.params ++ [(nm, (b :: rest).take (segEnd DOT (b :: rest)))] }
-    | .catchAll nm :: k' => hostAfter host path cur (.catchAll nm :: k') cm R            -- no catch-all in hostnames
+        hostKeyLoop lz host path cur k' (cm + segEnd DOT (b :: rest)) (inc lz paramCnt)
+          { R with params := rec lz R.params [(nm, (b :: rest).take (segEnd DOT (b :: rest)))] }
+    | .catchAll nm :: k' => hostAfter lz host path cur (.catchAll nm :: k') cm R            -- no catch-all in hostnames
 termination_by (posW cur k + stackW R.skipNds, 2)
 decreasing_by
   all_goals simp_wf
@@ -392,14 +402,14 @@ decreasing_by
 
 /-- the key of `cur` is used up and the host is not: static child first (a param child is saved for later), else the param child.
     The prologue of lookupByDomain is this step on the method root. -/
-def hostNodeEnd (host path : Bytes) (cur : Node) (cm paramCnt : Nat) (b : UInt8) (R : Regs) : Result :=
+def hostNodeEnd (lz : Bool) (host path : Bytes) (cur : Node) (cm paramCnt : Nat) (b : UInt8) (R : Regs) : Result :=
   match hs : hostStaticChild cur b with
   | none =>
     match hpc : paramChild cur with
-    | some pc => hostKeyLoop host path pc pc.key cm paramCnt R
-    | none => hostAfter host path cur [] cm R                   -- nothing more to evaluate: `break`
+    | some pc => hostKeyLoop lz host path pc pc.key cm paramCnt R
+    | none => hostAfter lz host path cur [] cm R                   -- nothing more to evaluate: `break`
   | some sc =>
-    hostKeyLoop host path sc sc.key cm paramCnt { R with skipNds := pushParam cur cm paramCnt R.skipNds }
+    hostKeyLoop lz host path sc sc.key cm paramCnt { R with skipNds := pushParam cur cm paramCnt R.skipNds }
 termination_by (posW cur [] + stackW R.skipNds, 1)
 decreasing_by
   all_goals simp_wf
@@ -415,31 +425,31 @@ decreasing_by
     omega
 
 /-- after the `Walk` loop: if host and key are both used up, look the path up below the "/" child -/
-def hostAfter (host path : Bytes) (cur : Node) (k : List Tok) (cm : Nat) (R : Regs) : Result :=
+def hostAfter (lz : Bool) (host path : Bytes) (cur : Node) (k : List Tok) (cm : Nat) (R : Regs) : Result :=
   if (host.drop cm).isEmpty && k.isEmpty then
     match cur.children.find? (fun c => firstByte c.key == SLASH) with
-    | none => hostBacktrack host path R
+    | none => hostBacktrack lz host path R
     | some c =>
-      match lookupByPath c path [] with
-      | .none => hostBacktrack host path R
-      | .found r sps true => hostBacktrack host path (setTsr R (some r) (R.params ++ sps))
-      | .found r sps false => .found r (R.params ++ sps) false
+      match lookupByPath c path [] lz with
+      | .none => hostBacktrack lz host path R
+      | .found r sps true => hostBacktrack lz host path (setTsr R (some r) (rec lz R.params sps))
+      | .found r sps false => .found r (rec lz R.params sps) false
       | .bad => .bad
-  else hostBacktrack host path R
+  else hostBacktrack lz host path R
 termination_by (posW cur k + stackW R.skipNds, 0)
 decreasing_by
   all_goals simp_wf
   all_goals simp only [Prod.lex_def, posW, setTsr_skipNds, true_and, Nat.lt_irrefl, false_or]
   all_goals omega
 
-def hostBacktrack (host path : Bytes) (R : Regs) : Result :=
+def hostBacktrack (lz : Bool) (host path : Bytes) (R : Regs) : Result :=
   match hst : R.skipNds with
   | [] =>
     (match R.tsr with
      | some (r, ps) => .found r ps true
      | none => .none)
   | f :: st =>
-    hostKeyLoop host path f.child f.child.key f.pathIndex f.paramCnt
+    hostKeyLoop lz host path f.child f.child.key f.pathIndex f.paramCnt
       { R with skipNds := st, params := R.params.take f.paramCnt }
 termination_by (stackW R.skipNds, 3)
 decreasing_by
@@ -449,14 +459,14 @@ decreasing_by
   omega
 end
 
-/-- `lookupByDomain(tree, target, host, path, c, false)` (host non-empty) -/
-def lookupByDomain (target : Node) (host path : Bytes) : Result :=
+/-- `lookupByDomain(tree, target, host, path, c, lazy)` (host non-empty) -/
+def lookupByDomain (target : Node) (host path : Bytes) (lz : Bool := false) : Result :=
   match host with
   | [] => .none
-  | b :: _ => hostNodeEnd host path target 0 0 b {}
+  | b :: _ => hostNodeEnd lz host path target 0 0 b {}
 
 /-- `roots.lookup` -/
-def lookup (rs : Roots) (m hostPort path : Bytes) : Result :=
+def lookup (rs : Roots) (m hostPort path : Bytes) (lz : Bool := false) : Result :=
   match methodRoot rs m with
   | none => .none
   | some root =>
@@ -464,15 +474,15 @@ def lookup (rs : Roots) (m hostPort path : Bytes) : Result :=
     | [] => .none
     | c0 :: cs =>
       -- the tree for this method only has paths registered
-      if cs.isEmpty && firstByte c0.key == SLASH then lookupByPath c0 path []
+      if cs.isEmpty && firstByte c0.key == SLASH then lookupByPath c0 path [] lz
       else
         let host := Spec.stripHostPort hostPort
-        let byHost := if host.isEmpty then Result.none else lookupByDomain root host path
+        let byHost := if host.isEmpty then Result.none else lookupByDomain root host path lz
         match byHost with
         | .none =>
           -- fallback by path
           (match (c0 :: cs).find? (fun c => firstByte c.key == SLASH) with
-           | some c => lookupByPath c path []
+           | some c => lookupByPath c path [] lz
            | none => .none)
         | r => r
 
